@@ -1,16 +1,24 @@
-"""Translator from the Python source of serde._Buffer to Gallina (coq/gen/PyBuffer.v).
+"""Translator from the Python source of fcp/serde.py to Gallina (coq/gen/PyBuffer.v, coq/gen/PyLeaf.v).
 
 Fail-closed: every construct it does not know raises Untranslatable, and the
-checks that depend on the generated file then report the tie to the source as
-broken.  The subset is what an imperative bit buffer needs: integer
-expressions over locals, parameters and the two attributes, list indexing,
-append, item update, if/raise, for over range(...) and over a list parameter,
-method calls on self, a list comprehension over range, return.
+checks that depend on the generated files then report the tie to the source as
+broken.  Two parts of serde.py are translated:
+
+  * class _Buffer (every method), and
+  * the module-level leaf codecs _encode_builtin_* / _decode_builtin_*
+    (unsigned, signed, float, double), whose first parameter is the buffer.
+
+The subset is what an imperative bit buffer needs: integer expressions over
+locals, parameters and the two attributes, list indexing, append, item update,
+if / if-else, raise, for over range(...) and over a list parameter, method
+calls on the buffer object, a list comprehension over range, return,
+type.get_length(), struct.pack/unpack of one float, 2**n, unary minus, and the
+comparison  a > b / c  (Python true division, compared exactly).
 
 Target conventions (coq/Py/BufferLib.v): ints are Z, List[int]/bytearray are
-list Z, a method  def m(self, a, b) -> T  becomes
-    Definition py_m (self : pybuf) (a b : ...) : pyres (pybuf * T')
-threading the object explicitly; exceptions are values (pyres).
+list Z, a float is its IEEE bit pattern (Z), exceptions are values (pyres).
+  def m(self, a, b) -> T            becomes  py_m (self : pybuf) a b : pyres (pybuf * T')
+  def _f(buffer: _Buffer, t, d) -> T becomes  py__f (buffer : pybuf) t d : pyres (pybuf * T')
 """
 import ast
 
@@ -20,9 +28,11 @@ class Untranslatable(Exception):
 
 
 BINOPS = {ast.RShift: "Z.shiftr", ast.LShift: "Z.shiftl", ast.BitAnd: "Z.land", ast.BitOr: "Z.lor", ast.Add: "Z.add", ast.Sub: "Z.sub",
-          ast.Mult: "Z.mul"}
+          ast.Mult: "Z.mul", ast.Pow: "Z.pow"}
 CMPOPS = {ast.LtE: "Z.leb", ast.Lt: "Z.ltb", ast.Eq: "Z.eqb", ast.GtE: "Z.geb", ast.Gt: "Z.gtb"}
 EXCEPTIONS = {"ValueError": "PyValueError", "IndexError": "PyIndexError"}
+NUM_TYPES = ("UnsignedType", "SignedType", "FloatType", "DoubleType")
+STRUCT_FMT = {"f": "f", "d": "d"}
 
 
 def ann_type(a):
@@ -30,38 +40,68 @@ def ann_type(a):
     if a is None:
         raise Untranslatable("missing annotation")
     s = ast.unparse(a)
-    if s == "int":
-        return "Z"
+    if s in ("int", "Any", "float"):
+        return "Z"                      # a float is carried as its IEEE bit pattern (BufferLib: py_struct_pack/unpack)
     if s in ("List[int]", "bytearray"):
         return "(list Z)"
     if s == "None":
         return "unit"
+    if s in NUM_TYPES:
+        return "pynum"
+    if s == "_Buffer":
+        return "pybuf"
     raise Untranslatable(f"annotation {s}")
 
 
-class Method:
-    def __init__(self, fn, method_names):
+def ends_in_return(body):
+    if not body:
+        return False
+    last = body[-1]
+    if isinstance(last, ast.Return):
+        return True
+    if isinstance(last, ast.If) and last.orelse:
+        return ends_in_return(last.body) and ends_in_return(last.orelse)
+    return False
+
+
+class Function:
+    """One method of _Buffer (obj = "self") or one module-level leaf function whose first parameter is the buffer (obj = "buffer")."""
+
+    def __init__(self, fn, methods, obj, functions=()):
         self.fn = fn
-        self.methods = method_names
+        self.methods = methods                     # names of the _Buffer methods
+        self.obj = obj
+        self.functions = set(functions)            # module-level functions translated so far
         self.tmp = 0
-        self.list_vars = {a.arg for a in fn.args.args[1:] if ann_type(a.annotation) == "(list Z)"}
+        params = fn.args.args[1:]
+        self.list_vars = {a.arg for a in params if ann_type(a.annotation) == "(list Z)"}
+        self.num_vars = {a.arg for a in params if ann_type(a.annotation) == "pynum"}
 
     def fresh(self):
         self.tmp += 1
         return f"t{self.tmp}"
 
+    def is_obj(self, e):
+        return isinstance(e, ast.Name) and e.id == self.obj
+
     # ---- expressions: returns (binds, term); binds = [(pattern, monadic term)] evaluated in order ----
     def expr(self, e):
+        o = self.obj
         if isinstance(e, ast.Constant):
             if isinstance(e.value, bool) or not isinstance(e.value, int):
                 raise Untranslatable(f"constant {e.value!r}")
             return [], (str(e.value) if e.value >= 0 else f"({e.value})")
         if isinstance(e, ast.Name):
+            if e.id == o or e.id in self.num_vars:
+                raise Untranslatable(f"an object used as a value: {e.id}")
             return [], e.id
         if isinstance(e, ast.Attribute):
-            if isinstance(e.value, ast.Name) and e.value.id == "self" and e.attr in ("buffer", "bitaddr"):
-                return [], f"(b_{e.attr} self)"
+            if self.is_obj(e.value) and o == "self" and e.attr in ("buffer", "bitaddr"):
+                return [], f"(b_{e.attr} {o})"
             raise Untranslatable(ast.unparse(e))
+        if isinstance(e, ast.UnaryOp) and isinstance(e.op, ast.USub):
+            b, x = self.expr(e.operand)
+            return b, f"(Z.opp {x})"
         if isinstance(e, ast.BinOp):
             if type(e.op) not in BINOPS:
                 raise Untranslatable(ast.unparse(e))
@@ -69,20 +109,36 @@ class Method:
             br, r = self.expr(e.right)
             return bl + br, f"({BINOPS[type(e.op)]} {l} {r})"
         if isinstance(e, ast.Compare):
-            if len(e.ops) != 1 or type(e.ops[0]) not in CMPOPS:
+            if len(e.ops) != 1:
+                raise Untranslatable(ast.unparse(e))
+            rhs = e.comparators[0]
+            if isinstance(e.ops[0], ast.Gt) and isinstance(rhs, ast.BinOp) and isinstance(rhs.op, ast.Div):
+                # a > b / c with ints: Python compares the int with the float quotient exactly (BufferLib.py_gt_truediv)
+                ba, a = self.expr(e.left)
+                bb, b = self.expr(rhs.left)
+                bc, c = self.expr(rhs.right)
+                return ba + bb + bc, f"(py_gt_truediv {a} {b} {c})"
+            if type(e.ops[0]) not in CMPOPS:
                 raise Untranslatable(ast.unparse(e))
             bl, l = self.expr(e.left)
-            br, r = self.expr(e.comparators[0])
+            br, r = self.expr(rhs)
             return bl + br, f"({CMPOPS[type(e.ops[0])]} {l} {r})"
         if isinstance(e, ast.Subscript):
+            # struct.unpack("f", X)[0]
+            v = e.value
+            if (isinstance(v, ast.Call) and ast.unparse(v.func) == "struct.unpack" and len(v.args) == 2 and isinstance(v.args[0], ast.Constant)
+                    and v.args[0].value in STRUCT_FMT and isinstance(e.slice, ast.Constant) and e.slice.value == 0):
+                b, x = self.expr(v.args[1])
+                t = self.fresh()
+                return b + [(t, f"py_struct_unpack_{STRUCT_FMT[v.args[0].value]} {x}")], t
             bl, l = self.expr(e.value)
             bi, i = self.expr(e.slice)
             t = self.fresh()
             return bl + bi + [(t, f"py_getitem {l} {i}")], t
         if isinstance(e, ast.Call):
             f = e.func
-            if isinstance(f, ast.Name) and f.id == "int" and len(e.args) == 1 and not e.keywords:
-                return self.expr(e.args[0])                     # int(x) of an int
+            if isinstance(f, ast.Name) and f.id in ("int", "float", "list") and len(e.args) == 1 and not e.keywords:
+                return self.expr(e.args[0])                     # int(x) of an int, float(x) of a float, list(x) of bytes
             if isinstance(f, ast.Name) and f.id == "len" and len(e.args) == 1:
                 b, a = self.expr(e.args[0])
                 return b, f"(py_len {a})"
@@ -90,14 +146,28 @@ class Method:
                 b, a = self.expr(e.args[0])
                 t = self.fresh()
                 return b + [(t, f"py_bytearray {a}")], t
-            if isinstance(f, ast.Attribute) and isinstance(f.value, ast.Name) and f.value.id == "self" and f.attr in self.methods:
+            if ast.unparse(f) == "struct.pack" and len(e.args) == 2 and isinstance(e.args[0], ast.Constant) and e.args[0].value in STRUCT_FMT:
+                b, a = self.expr(e.args[1])
+                return b, f"(py_struct_pack_{STRUCT_FMT[e.args[0].value]} {a})"
+            if (isinstance(f, ast.Attribute) and f.attr == "get_length" and isinstance(f.value, ast.Name) and f.value.id in self.num_vars
+                    and not e.args):
+                return [], f"(get_length {f.value.id})"
+            if isinstance(f, ast.Attribute) and self.is_obj(f.value) and f.attr in self.methods:
                 binds, args = [], []
                 for a in e.args:
                     b, x = self.expr(a)
                     binds += b
                     args.append(x)
                 t = self.fresh()
-                return binds + [(f"'(self, {t})", f"py_{f.attr} self " + " ".join(args))], t
+                return binds + [(f"'({o}, {t})", f"py_{f.attr} {o} " + " ".join(args))], t
+            if isinstance(f, ast.Name) and f.id in self.functions and e.args and self.is_obj(e.args[0]):
+                binds, args = [], []
+                for a in e.args[1:]:
+                    b, x = self.expr(a)
+                    binds += b
+                    args.append(x)
+                t = self.fresh()
+                return binds + [(f"'({o}, {t})", f"py_{f.id} {o} " + " ".join(args))], t
             raise Untranslatable(ast.unparse(e))
         if isinstance(e, ast.ListComp):
             # [<expr> for _ in range(n)]
@@ -110,9 +180,9 @@ class Method:
             bn, nt = self.expr(n)
             be, et = self.expr(e.elt)
             acc = self.fresh()
-            body = self.wrap(be, f"POk (self, ({acc} ++ [{et}])%list)")
+            body = self.wrap(be, f"POk ({o}, ({acc} ++ [{et}])%list)")
             t = self.fresh()
-            return bn + [(f"'(self, {t})", f"for_range {nt} (fun {g.target.id} '(self, {acc}) => {body}) (self, [])")], t
+            return bn + [(f"'({o}, {t})", f"for_range {nt} (fun {g.target.id} '({o}, {acc}) => {body}) ({o}, [])")], t
         raise Untranslatable(ast.unparse(e))
 
     @staticmethod
@@ -127,9 +197,9 @@ class Method:
             term = f"pbind ({m}) (fun {pat} => {term})"
         return term
 
-    # ---- statements, in continuation style: stmts(list, k) where k is the Gallina for "the rest" ----
+    # ---- statements, in continuation style: k is the Gallina for "the rest" ----
     def assigned(self, body):
-        """Local names a block assigns (loop-carried state besides self)."""
+        """Local names a block assigns (loop-carried state besides the object)."""
         out = []
         for node in ast.walk(ast.Module(body=body, type_ignores=[])):
             tgt = None
@@ -147,12 +217,13 @@ class Method:
         return k
 
     def state(self, names):
-        return "self" if not names else "(" + ", ".join(["self"] + names) + ")"
+        return self.obj if not names else "(" + ", ".join([self.obj] + names) + ")"
 
     def statepat(self, names):
-        return "self" if not names else "'(" + ", ".join(["self"] + names) + ")"
+        return self.obj if not names else "'(" + ", ".join([self.obj] + names) + ")"
 
     def stmt(self, st, k):
+        o = self.obj
         if isinstance(st, ast.Expr) and isinstance(st.value, ast.Constant) and isinstance(st.value.value, str):
             return k                                            # docstring
         if isinstance(st, ast.Assign) and len(st.targets) == 1 and isinstance(st.targets[0], ast.Name):
@@ -166,9 +237,9 @@ class Method:
             tg = st.target
             if isinstance(tg, ast.Name):
                 return self.wrap(b, f"let {tg.id} := ({op} {tg.id} {v}) in {k}")
-            if isinstance(tg, ast.Attribute) and isinstance(tg.value, ast.Name) and tg.value.id == "self" and tg.attr == "bitaddr":
+            if o == "self" and isinstance(tg, ast.Attribute) and self.is_obj(tg.value) and tg.attr == "bitaddr":
                 return self.wrap(b, f"let self := set_bitaddr self ({op} (b_bitaddr self) {v}) in {k}")
-            if isinstance(tg, ast.Subscript) and isinstance(tg.value, ast.Attribute) and ast.unparse(tg.value) == "self.buffer":
+            if o == "self" and isinstance(tg, ast.Subscript) and isinstance(tg.value, ast.Attribute) and ast.unparse(tg.value) == "self.buffer":
                 bi, i = self.expr(tg.slice)
                 old, new = self.fresh(), self.fresh()
                 # Python evaluates the target's container and index, reads the item, evaluates the value, stores
@@ -177,16 +248,21 @@ class Method:
             raise Untranslatable(ast.unparse(st))
         if isinstance(st, ast.Expr) and isinstance(st.value, ast.Call):
             c = st.value
-            if isinstance(c.func, ast.Attribute) and ast.unparse(c.func) == "self.buffer.append" and len(c.args) == 1:
+            if o == "self" and isinstance(c.func, ast.Attribute) and ast.unparse(c.func) == "self.buffer.append" and len(c.args) == 1:
                 b, v = self.expr(c.args[0])
                 return self.wrap(b, f"let self := set_buffer self (b_buffer self ++ [{v}])%list in {k}")
             b, _ = self.expr(c)
             return self.wrap(b, k)
         if isinstance(st, ast.If):
-            if st.orelse:
-                raise Untranslatable("else branch")
-            names = self.assigned(st.body)
             b, c = self.expr(st.test)
+            if st.orelse:
+                # only as the tail of a function, with a return on every path
+                if not (ends_in_return(st.body) and ends_in_return(st.orelse)):
+                    raise Untranslatable("if/else whose branches do not both return")
+                return self.wrap(b, f"if {c} then {self.block(st.body, None)} else {self.block(st.orelse, None)}")
+            if ends_in_return(st.body):
+                raise Untranslatable("return inside an if without else")
+            names = self.assigned(st.body)
             s, p = self.state(names), self.statepat(names)
             inner = self.block(st.body, f"POk {s}")
             return self.wrap(b, f"pbind (if {c} then {inner} else POk {s}) (fun {p} => {k})")
@@ -198,6 +274,8 @@ class Method:
         if isinstance(st, ast.For):
             if st.orelse or not isinstance(st.target, ast.Name):
                 raise Untranslatable(ast.unparse(st))
+            if ends_in_return(st.body):
+                raise Untranslatable("return inside a loop")
             names = self.assigned(st.body)
             s, p = self.state(names), self.statepat(names)
             body = self.block(st.body, f"POk {s}")
@@ -207,19 +285,21 @@ class Method:
             return self.wrap(b, f"pbind (for_range {n} (fun {st.target.id} {p} => {body}) {s}) (fun {p} => {k})")
         if isinstance(st, ast.Return):
             if st.value is None:
-                return "POk (self, tt)"
+                return f"POk ({o}, tt)"
             b, t = self.expr(st.value)
-            return self.wrap(b, f"POk (self, {t})")
+            return self.wrap(b, f"POk ({o}, {t})")
         raise Untranslatable(ast.unparse(st))
 
     def translate(self):
         fn = self.fn
         if fn.args.vararg or fn.args.kwarg or fn.args.kwonlyargs or fn.args.defaults or fn.decorator_list:
             raise Untranslatable(f"signature of {fn.name}")
+        if fn.args.args[0].arg != self.obj:
+            raise Untranslatable(f"first parameter of {fn.name} is not {self.obj}")
         params = " ".join(f"({a.arg} : {ann_type(a.annotation)})" for a in fn.args.args[1:])
         ret = ann_type(fn.returns)
-        body = self.block(fn.body, "POk (self, tt)")
-        return f"Definition py_{fn.name} (self : pybuf) {params} : pyres (pybuf * {ret}) :=\n  {body}.\n"
+        body = self.block(fn.body, f"POk ({self.obj}, tt)")
+        return f"Definition py_{fn.name} ({self.obj} : pybuf) {params} : pyres (pybuf * {ret}) :=\n  {body}.\n"
 
 
 def translate_init(fn):
@@ -253,13 +333,11 @@ def order_methods(fns):
     return out
 
 
-def translate_buffer(source):
-    tree = ast.parse(source)
+def buffer_class(tree):
     cls = [n for n in tree.body if isinstance(n, ast.ClassDef) and n.name == "_Buffer"]
     if len(cls) != 1 or cls[0].bases or cls[0].decorator_list:
         raise Untranslatable("class _Buffer not found (or has bases/decorators)")
-    fns = []
-    init = None
+    fns, init = [], None
     for n in cls[0].body:
         if isinstance(n, ast.FunctionDef):
             if n.name == "__init__":
@@ -272,15 +350,43 @@ def translate_buffer(source):
             raise Untranslatable("class body: " + ast.unparse(n))
     if init is None:
         raise Untranslatable("no __init__")
+    return init, fns
+
+
+HEADER = ["From Coq Require Import ZArith List Bool.", "From FcpV Require Import Py.BufferLib.", "Import ListNotations.", "Open Scope Z_scope.", ""]
+
+
+def translate_buffer(source):
+    init, fns = buffer_class(ast.parse(source))
     names = {f.name for f in fns}
-    out = ["(* GENERATED by harness/py2coq.py from class _Buffer of /repo/src/fcp/serde.py on every run; do not edit. *)",
-           "From Coq Require Import ZArith List Bool.", "From FcpV Require Import Py.BufferLib.", "Import ListNotations.", "Open Scope Z_scope.", "",
-           translate_init(init)]
+    out = ["(* GENERATED by harness/py2coq.py from class _Buffer of /repo/src/fcp/serde.py on every run; do not edit. *)"] + HEADER + [translate_init(init)]
     for f in order_methods(fns):
-        out.append(Method(f, names).translate())
+        out.append(Function(f, names, "self").translate())
+    return "\n".join(out)
+
+
+LEAVES = ["_encode_builtin_unsigned", "_encode_builtin_signed", "_encode_builtin_float", "_encode_builtin_double",
+          "_decode_builtin_unsigned", "_decode_builtin_signed", "_decode_builtin_float", "_decode_builtin_double"]
+
+
+def translate_leaves(source):
+    tree = ast.parse(source)
+    _, fns = buffer_class(tree)
+    methods = {f.name for f in fns}
+    top = {n.name: n for n in tree.body if isinstance(n, ast.FunctionDef)}
+    out = ["(* GENERATED by harness/py2coq.py from the leaf codecs of /repo/src/fcp/serde.py on every run; do not edit. *)"] + HEADER[:2] + \
+          ["From FcpV Require Import gen.PyBuffer."] + HEADER[2:]
+    done = []
+    for name in LEAVES:
+        if name not in top:
+            raise Untranslatable(f"{name} not found")
+        out.append(Function(top[name], methods, "buffer", done).translate())
+        done.append(name)
     return "\n".join(out)
 
 
 if __name__ == "__main__":
     import sys
-    print(translate_buffer(open(sys.argv[1]).read()))
+    src = open(sys.argv[1]).read()
+    print(translate_buffer(src))
+    print(translate_leaves(src))
